@@ -43,6 +43,7 @@ type writeOp struct {
 
 type scenario struct {
 	Conn   string    `json:"conn"` // buffer | dpipe | udp | vnet | bridge | vnetdial (a connected vnet socket)
+	CloseFuture bool `json:"closeFuture,omitempty"` // closeThen: the deadline is a near future one when the connection is closed and passes afterwards
 	CloseThen bool   `json:"closeThen,omitempty"` // buffer, udp: at the end the deadline is set to the past, the connection closed, the deadline cleared: reads must not time out any more
 	Sets   []setOp   `json:"sets"`
 	Sets2  []setOp   `json:"sets2,omitempty"` // a second worker setting deadlines concurrently
@@ -116,7 +117,8 @@ func gen(r *harn.Rng, tier string) interface{} {
 	for i, n := 0, r.Range(0, 3); i < n; i++ {
 		sc.Writes = append(sc.Writes, writeOp{SleepNs: sl(), Len: r.Pick(4, 100, 1000), Foreign: sc.Conn == "vnetdial" && r.Bool(0.5)})
 	}
-	sc.CloseThen = (sc.Conn == "buffer" || sc.Conn == "udp") && r.Bool(0.3)
+	sc.CloseThen = (sc.Conn == "buffer" || sc.Conn == "udp" || sc.Conn == "bridge") && r.Bool(0.3)
+	sc.CloseFuture = r.Bool(0.5)
 	return sc
 }
 
@@ -266,6 +268,10 @@ func open(env *simrt.Env, kind string) *conn {
 		return &conn{
 			read: c0.Read, setRead: c0.SetReadDeadline, setBoth: c0.SetDeadline,
 			write: func(p []byte) error { _, err := c1.Write(p); return err },
+			closeRead: func() {
+				_ = c0.Close()
+				env.Sleep(500 * time.Microsecond) // the ticker closes the endpoint's channel once its queue is empty
+			},
 			teardown: func() {
 				_ = c0.Close()
 				_ = c1.Close()
@@ -537,7 +543,20 @@ func run(env *simrt.Env, sci interface{}) {
 		env.Join(readerH)
 		// the deadline has passed; the connection is closed; the deadline is cleared again: a read
 		// now reports buffered data or the end of the connection, not a timeout any more
+		if sc.CloseFuture {
+			_ = c.setRead(env.Now().Add(time.Millisecond))
+		}
 		c.closeRead()
+		if sc.CloseFuture {
+			env.Sleep(2 * time.Millisecond)
+			env.QuiesceWithin(time.Microsecond) // the expiry callback of the deadline has run
+		}
+		// closing does not touch the deadline: it has passed and was not set again, so reads keep
+		// failing with a timeout
+		if _, err := c.read(make([]byte, 2048)); !isTimeout(err) {
+			env.Fail("C10/expiry-not-persistent", "%s: the read deadline has passed and was not set again; after Close a Read returned %v instead of a timeout", sc.Conn, err)
+			return
+		}
 		_ = c.setRead(time.Time{})
 		_, err := c.read(make([]byte, 2048))
 		if isTimeout(err) {
